@@ -242,6 +242,24 @@ def check(prop, tier, seed):
     return exit_code
 
 
+def selfcheck():
+    """setup_cmd: nothing is built; verify that everything the checks need is present offline."""
+    import z3
+    ok = True
+    s = z3.Solver()
+    x = z3.Int('x')
+    s.add(x > 1, x < 3)
+    ok &= s.check() == z3.sat
+    mods = R.load_modules()
+    tasks = R.all_tasks()
+    print('z3', z3.get_version_string(), '| cvc5 binary:', os.path.exists('/usr/bin/cvc5'),
+          '| repo modules parsed:', len(mods), '| contract tasks:', len(tasks))
+    rc, out, dt = run_cmd('%s -c "import aiuti.asyncio, aiuti.filelock, aiuti.itertools, aiuti.parsing; print(1)"' % VENV_PY, 60)
+    print('repo importable under /venv/bin/python:', rc == 0)
+    ok &= rc == 0 and len(tasks) > 0
+    return 0 if ok else 3
+
+
 def _z3v():
     import z3
     return z3.get_version_string()
@@ -253,6 +271,7 @@ def main():
     c = sub.add_parser('check')
     c.add_argument('prop')
     c.add_argument('--tier', default=os.environ.get('VERIF_TIER', 'quick'))
+    sub.add_parser('selfcheck')
     t = sub.add_parser('task')
     t.add_argument('name')
     a = ap.parse_args()
@@ -265,6 +284,8 @@ def main():
             traceback.print_exc()
             rc = 3
         sys.exit(rc)
+    elif a.cmd == 'selfcheck':
+        sys.exit(selfcheck())
     elif a.cmd == 'task':
         r = R.run_task(a.name)
         json.dump(r, sys.stdout, indent=1, default=str)
